@@ -62,7 +62,8 @@ class Ctx:
             ent[1] += 1
             return False
         h = hashlib.sha1(json.dumps([signature, description], sort_keys=True, default=str).encode()).hexdigest()[:12]
-        path = os.path.join(ROOT, 'replays', '%s-%s.json' % (self.pid, h))
+        rdir = os.path.join(ROOT, 'replays') if os.path.realpath(self.repo) == '/repo' else '/tmp/zv-replays'
+        path = os.path.join(rdir, '%s-%s.json' % (self.pid, h))
         if len(self.violations) < 25:
             os.makedirs(os.path.dirname(path), exist_ok=True)
             with open(path, 'w') as fp:
@@ -93,7 +94,10 @@ class Ctx:
             print('  signature: %s' % json.dumps(v['signature'], sort_keys=True, default=str))
             print('  %s' % v['description'])
         cov['violation_signatures'] = [v['signature'] for v in self.violations[:10]]
-        evidence.write(self.pid, self.tier, self.seed, level, cov, assumptions, time.time() - self.t0, len(self.violations))
+        path = None
+        if os.path.realpath(self.repo) != '/repo':       # a scratch tree (self-test): keep /verif/evidence untouched
+            path = os.path.join(os.environ.get('ZV_EVIDENCE_DIR') or self.scratch, '%s.json' % self.pid)
+        evidence.write(self.pid, self.tier, self.seed, level, cov, assumptions, time.time() - self.t0, len(self.violations), path)
         return 1 if self.violations else 0
 
     def cleanup(self):
